@@ -700,6 +700,10 @@ mod harness {
     span_from_str_harness!(c06_span_from_str_len3, 3, 6);
     span_from_str_harness!(c06_span_from_str_len5, 5, 8);
 
+    // Tried and dropped: `impl Display for RichError` with `Formatter::write_fmt` stubbed to a no-op and the Lines model
+    // (3-byte files, pest-producible spans): CBMC out of memory after 16 min - skip/peekable/take/enumerate over Lines plus
+    // core::fmt::write and Arc<str> construction.  Error rendering stays outside the claim (C20 not applicable).
+
     /// to_slice never panics on the spans pest can hand out for a file: line/col of offsets a <= b <= len
     /// (b = len is the end of the input; the slice is then not found, which the callers tolerate)
     #[kani::proof]
